@@ -23,6 +23,7 @@ package main
 //     A caller of a refused function is refused too.
 
 import (
+	"regexp"
 	"fmt"
 	"go/ast"
 	"go/constant"
@@ -2360,8 +2361,19 @@ func (c *gfCtx) fuel() string {
 	}
 	f := c.spec.fuel[c.loopIdx]
 	c.loopIdx++
+	// The fuel expression names variables of the Go function. After a harmless rename (or the removal of a
+	// temporary) such a name no longer exists: refuse the function - its theorem then holds vacuously and the
+	// tie falls back to the correspondence - rather than emit a file that does not compile and takes every
+	// property down (behaviour-preserving rewrite H11c).
+	for _, id := range gfFuelIdent.FindAllString(f, -1) {
+		if c.used[id] == 0 {
+			gfFail("the fuel expression of loop %d refers to %s, which is not a variable of this function any more", c.loopIdx, id)
+		}
+	}
 	return f
 }
+
+var gfFuelIdent = regexp.MustCompile(`v_[A-Za-z0-9_]+`)
 
 func hasBranch(n ast.Node) bool {
 	found := false
